@@ -147,6 +147,32 @@ def native_run(target, inputs, choices):
     try:
         st = target.setup(ctx)
         externs = target.externs(ctx, st)
+        for handle, (ifile, icls, names) in getattr(target, 'inline_methods', {}).items():
+            import types as _types
+            from . import extract as _ex
+            obj = getattr(st, handle)
+            mod, _g = _ex.module_globals(ifile)
+            cls = mod
+            for part in icls.split('.'):
+                cls = getattr(cls, part)
+            for mname in names:
+                fn = cls.__dict__[mname]
+                fn = getattr(fn, '__func__', fn)
+                setattr(obj, mname, _types.MethodType(fn, obj))
+        for handle, (ifile, icls) in getattr(target, 'inline_class', {}).items():
+            import types as _types
+            from . import extract as _ex
+            mod, _g = _ex.module_globals(ifile)
+            cls = mod
+            for part in icls.split('.'):
+                cls = getattr(cls, part)
+
+            def nfb(obj, mname, cls=cls):
+                fn = cls.__dict__.get(mname)
+                if fn is None or not callable(getattr(fn, '__func__', fn)):
+                    return None
+                return _types.MethodType(getattr(fn, '__func__', fn), obj)
+            object.__setattr__(getattr(st, handle), '_fallback', nfb)
         with target.patched(externs):
             out = target.run_native(ctx, st)
             clauses = list(target.ensures(ctx, st, out))     # evaluated under the same patched externs
@@ -194,6 +220,29 @@ def explore_chunk(target, work, limit, carve_names, tier, cross_check=True):
             _, iglobs = _ex.module_globals(ifile)
             it.externs[iname] = Closure(iex.node, Env(globs=iglobs), it, iqual)
             rep.inlined[iqual] = iex.describe()
+        for handle, (ifile, icls, names) in getattr(target, 'inline_methods', {}).items():
+            from .interp import Closure, Env, BoundClosure
+            from . import extract as _ex
+            obj = getattr(st, handle)
+            _, iglobs = _ex.module_globals(ifile)
+            for mname in names:
+                iex = _ex.function(ifile, icls + '.' + mname)
+                setattr(obj, mname, BoundClosure(Closure(iex.node, Env(globs=iglobs), it, icls + '.' + mname), obj))
+                rep.inlined[icls + '.' + mname] = iex.describe()
+        for handle, (ifile, icls) in getattr(target, 'inline_class', {}).items():
+            # any OTHER method of the class that the code calls on this stub is interpreted from its real source
+            from .interp import Closure, Env, BoundClosure
+            from . import extract as _ex
+
+            def fb(obj, mname, ifile=ifile, icls=icls):
+                try:
+                    iex = _ex.function(ifile, icls + '.' + mname)
+                except _ex.AnchorLost:
+                    return None
+                _, iglobs = _ex.module_globals(ifile)
+                rep.inlined[icls + '.' + mname] = iex.describe()
+                return BoundClosure(Closure(iex.node, Env(globs=iglobs), it, icls + '.' + mname), obj)
+            object.__setattr__(getattr(st, handle), '_fallback', fb)
         out = None
         try:
             out = target.run_symbolic(ctx, st, it, ex, globs)
